@@ -24,8 +24,11 @@ def _mc(run, module, cfgname, cfgtext):
     return run.model_check(module, cfgname, workers=min(NCPU, 12))
 
 
-def _run(run, sessions, label, module, cfg, describe):
-    binary = run.go_build("bodydrv")
+def _run(run, sessions, label, module, cfg, describe, race=False):
+    if getattr(run, "collect", None) is not None:
+        run.collect[label] = sessions
+        return 0
+    binary = run.go_build("bodydrv", race=race)
     sp = os.path.join(run.scratch, "sessions-%s.ndjson" % label)
     tp = os.path.join(run.scratch, "traces-%s.ndjson" % label)
     write_ndjson(sp, sessions)
@@ -99,6 +102,8 @@ def check_c18(run):
         sessions.append({"id": sid, "kind": "conc", "target": "engine", "gated": rng.random() < 0.9,
                          "blocks": blocks, "nest": rng.choice(["plain", "if", "for"])})
     ns = _run(run, sessions, "conc", "ConcTrace.tla", "ConcTrace.cfg", conc_describe)
+    if getattr(run, "collect", None) is not None:
+        return 0
     if not run.violations:
         conc_self_test(run)
     run.cov["evaluations"] = ns
@@ -241,6 +246,8 @@ def check_c15(run):
     if quick and len(sessions) > 2500:
         sessions = rng.sample(sessions, 2500)
     ns = _run(run, sessions, "locals", "LocalsTrace.tla", "LocalsTrace.cfg", locals_describe)
+    if getattr(run, "collect", None) is not None:
+        return 0
     if not run.violations:
         locals_self_test(run)
     run.cov["evaluations"] = ns
